@@ -21,49 +21,98 @@ Lemma exec_nil : forall p s, exec p s [] = s.
 Proof. reflexivity. Qed.
 
 (* ------------------------------------------------------------------ *)
-(* a stuck client stays as it is, whatever happens                     *)
+(* no event blocks the client's read loop (since 4b9897e)               *)
 
-Lemma settle_stuck_cl : forall p f s, cl_stuck (st_cl s) = true ->
-  st_cl (settle p f s) = st_cl s.
+Lemma cl_update_stuck : forall p c u c' b,
+  cl_update p c u = Some (c', b) -> cl_stuck c' = cl_stuck c.
 Proof.
-  intros p f. induction f as [|f IH]; intros s H; [reflexivity|].
-  cbn [settle]. unfold do_sync_serve. rewrite H, andb_false_r.
-  destruct (st_wire s); [reflexivity|]. now rewrite H.
+  intros p c u c' b H. unfold cl_update in H.
+  destruct (client_apply (p_codec p) u (cl_t c) (cl_q c) (cl_m c)) as [[[[t' q'] m'] acc]|];
+    [|discriminate].
+  destruct (acc && negb (Nat.eqb (length t') 0)); injection H as H1 H2; subst; reflexivity.
 Qed.
 
-Lemma step_stuck : forall p s e, cl_stuck (st_cl s) = true ->
-  st_cl (step p s e) = st_cl s.
+Lemma cl_update_muts_stuck : forall p us c c' b,
+  cl_update_muts p c us = Some (c', b) -> cl_stuck c' = cl_stuck c.
 Proof.
-  intros p s e H. unfold step. destruct (st_err s); [reflexivity|].
+  intros p us. induction us as [|u r IH]; intros c c' b H; cbn [cl_update_muts] in H.
+  - injection H as H1 H2. now subst.
+  - destruct (cl_update p c u) as [[c1 [|]]|] eqn:E; [| |discriminate].
+    + rewrite (IH _ _ _ H). eapply cl_update_stuck; eauto.
+    + injection H as H1 H2. subst. eapply cl_update_stuck; eauto.
+Qed.
+
+Lemma cl_sync_stuck : forall c t q m, cl_stuck (cl_sync c t q m) = cl_stuck c.
+Proof.
+  intros c t q m. unfold cl_sync. destruct t; [reflexivity|].
+  destruct (Nat.eqb _ _); reflexivity.
+Qed.
+
+Lemma sync_serve_stuck : forall p s, cl_stuck (st_cl (do_sync_serve p s)) = cl_stuck (st_cl s).
+Proof.
+  intros p s. unfold do_sync_serve.
+  destruct (cl_need (st_cl s) && negb (cl_stuck (st_cl s)) && negb (call_in_flight s)); reflexivity.
+Qed.
+
+Lemma deliver_stuck : forall p s, cl_stuck (st_cl s) = false ->
+  cl_stuck (st_cl (do_deliver p s)) = false.
+Proof.
+  intros p s H. unfold do_deliver. rewrite H.
+  destruct (st_wire s) as [|m w]; [exact H|].
+  destruct m as [u|us|[u|us]|t q m].
+  - destruct (cl_update p (st_cl s) u) as [[c' [|]]|] eqn:E; cbn; try exact H;
+      rewrite (cl_update_stuck _ _ _ _ _ E); exact H.
+  - destruct (cl_update_muts p (st_cl s) us) as [[c' [|]]|] eqn:E; cbn; try exact H;
+      rewrite (cl_update_muts_stuck _ _ _ _ _ E); exact H.
+  - destruct (cl_update p (st_cl s) u) as [[c' [|]]|] eqn:E; cbn; try exact H;
+      rewrite (cl_update_stuck _ _ _ _ _ E); exact H.
+  - destruct (cl_update_muts p (st_cl s) us) as [[c' [|]]|] eqn:E; cbn; try exact H;
+      rewrite (cl_update_muts_stuck _ _ _ _ _ E); exact H.
+  - cbn. now rewrite cl_sync_stuck.
+Qed.
+
+Lemma settle_not_stuck : forall p f s, cl_stuck (st_cl s) = false ->
+  cl_stuck (st_cl (settle p f s)) = false.
+Proof.
+  intros p f. induction f as [|f IH]; intros s H; [exact H|].
+  cbn [settle].
+  assert (H2 : cl_stuck (st_cl (do_sync_serve p s)) = false) by now rewrite sync_serve_stuck.
+  destruct (st_wire (do_sync_serve p s)); [exact H2|].
+  rewrite H2. apply IH. now apply deliver_stuck.
+Qed.
+
+Lemma step_not_stuck : forall p s e, cl_stuck (st_cl s) = false ->
+  cl_stuck (st_cl (step p s e)) = false.
+Proof.
+  intros p s e H. unfold step. destruct (st_err s); [exact H|].
   destruct e.
-  - reflexivity.
-  - unfold do_push. destruct (negb (st_conn s)); [reflexivity|].
-    destruct (sv_latest (st_sv s)) as [d|]; [|reflexivity].
+  - exact H.
+  - unfold do_push. destruct (negb (st_conn s)); [exact H|].
+    destruct (sv_latest (st_sv s)) as [d|]; [|exact H].
+    destruct (d_mtime d); [|exact H].
     destruct ((d_sum (sv_last (st_sv s)) =? d_sum d) && (d_q (sv_last (st_sv s)) =? d_q d));
-      [reflexivity|].
+      [exact H|].
     destruct (p_mut p).
-    + destruct (calc_update_muts _ _ _) as [[|u us]|]; destruct (d_mtime d); reflexivity.
-    + destruct (calc_upd _ _ _) as [u|]; [|destruct (d_mtime d); reflexivity].
-      destruct (u_idx u); destruct (d_mtime d); reflexivity.
+    + destruct (calc_update_muts _ _ _) as [[|u us]|]; exact H.
+    + destruct (calc_upd _ _ _) as [u|]; exact H.
   - unfold do_reply. destruct (p_mut p).
-    + destruct (calc_update_muts _ _ _); [|reflexivity].
-      destruct (sv_latest (st_sv s)); reflexivity.
-    + destruct (sv_latest (st_sv s)); [|reflexivity].
-      destruct (calc_upd _ _ _); reflexivity.
-  - unfold do_write. destruct (st_pend s); reflexivity.
-  - unfold do_deliver. now rewrite H.
-  - unfold do_sync_req. now rewrite H.
-  - unfold do_sync_serve. now rewrite H, andb_false_r.
-  - unfold do_hello. now rewrite H.
-  - now apply settle_stuck_cl.
+    + destruct (calc_update_muts _ _ _); [|exact H].
+      destruct (sv_latest (st_sv s)); exact H.
+    + destruct (sv_latest (st_sv s)); [|exact H].
+      destruct (calc_upd _ _ _); exact H.
+  - unfold do_write. destruct (st_pend s); exact H.
+  - now apply deliver_stuck.
+  - unfold do_sync_req. rewrite H. exact H.
+  - now rewrite sync_serve_stuck.
+  - unfold do_hello. rewrite H. reflexivity.
+  - now apply settle_not_stuck.
 Qed.
 
-Lemma stuck_forever_lemma : forall p es s, cl_stuck (st_cl s) = true ->
-  st_cl (exec p s es) = st_cl s.
+Lemma never_blocks_lemma : forall p es s, cl_stuck (st_cl s) = false ->
+  cl_stuck (st_cl (exec p s es)) = false.
 Proof.
-  intros p es. induction es as [|e r IH]; intros s H; [reflexivity|].
-  rewrite exec_cons. rewrite IH; [now apply step_stuck|].
-  now rewrite step_stuck.
+  intros p es. induction es as [|e r IH]; intros s H; [exact H|].
+  rewrite exec_cons. apply IH. now apply step_not_stuck.
 Qed.
 
 (* ------------------------------------------------------------------ *)
@@ -79,7 +128,7 @@ Qed.
 Local Opaque client_apply calc_update calc_update_muts calc_upd w8 w16 w32 w64 hello_time.
 
 Lemma full_sync_restores_lemma : forall p s,
-  st_err s = false -> cl_stuck (st_cl s) = false -> st_wire s = [] ->
+  st_err s = false -> cl_stuck (st_cl s) = false -> st_wire s = [] -> st_pend s = None ->
   s_time (st_cur s) <> [] ->
   length (s_time (st_cur s)) = length (cl_t (st_cl s)) ->
   let s' := exec p s [SyncReq; Settle] in
@@ -88,10 +137,10 @@ Lemma full_sync_restores_lemma : forall p s,
   st_wire s' = [] /\ cl_need (st_cl s') = false /\ cl_stuck (st_cl s') = false /\
   st_err s' = false /\ st_sv s' = st_sv s.
 Proof.
-  intros p s He Hs Hw Ht Hl s'. subst s'.
+  intros p s He Hs Hw Hp Ht Hl s'. subst s'.
   destruct s as [sv cl wire pend cur err sil rej syn np conn ip].
   destruct cl as [t q m stuck need errs].
-  cbn in He, Hs, Hw, Ht, Hl. subst err stuck wire.
+  cbn in He, Hs, Hw, Hp, Ht, Hl. subst err stuck wire pend.
   cbn -[cl_sync].
   rewrite cl_sync_ok by (cbn; assumption).
   cbn. repeat split; reflexivity.
@@ -125,186 +174,181 @@ Definition all4 : cfg := {| sync_schema := true; shallow := false; tracked := [0
 Definition plain : pcfg := {| p_codec := all4; p_mut := false; p_hello_m := false; p_sync_m := false |}.
 Definition sn (t : list N) (q m : N) : snap := {| s_time := t; s_q := q; s_m := m |}.
 
-(* (R1) a reply overtaken by a push *)
 Definition r1_s0 := sn [0;0;0;0] 1 0.
 Definition r1_s1 := sn [1;0;0;0] 2 0.
 Definition r1_s2 := sn [1;1;0;0] 3 0.
-Definition r1_events : list ev := [Src r1_s1; Reply; Src r1_s2; Push; Deliver; Write; Deliver].
+Definition race_events (y1 y2 : snap) : list ev :=
+  [Src y1; Reply; Src y2; Push; Settle; Write; Settle].
 
-Theorem reorder_stale_refuted_lemma :
-  exists (p : pcfg) (s0 s1 s2 : snap),
-    p_mut p = false /\ shallow (p_codec p) = false /\
-    cfg_wf (p_codec p) (length (s_time s0)) = true /\
-    chain_in_range s0 [s1; s2] = true /\ s_m s0 = 0 /\
-    let st := exec p (init p s0) [Src s1; Reply; Src s2; Push; Deliver; Write; Deliver] in
-    quiescent st = true /\ st_err st = false /\ cl_stuck (st_cl st) = false /\
-    st_rejpush st = true /\
-    sv_last (st_sv st) = mk_data (p_codec p) s2 /\
-    client_view st = (mirror (p_codec p) s1, s_q s1, s_m s1) /\
-    mirror_ok (p_codec p) (s_time s2) (cl_t (st_cl st)) = false /\
-    forall n, exec p st (concat (repeat [Push; Settle] n)) = st.
-Proof.
-  exists plain, r1_s0, r1_s1, r1_s2.
-  repeat split; try (vm_compute; reflexivity).
-  intros n. apply repeat_fix. vm_compute. reflexivity.
-Qed.
+(* (R1) what still fails: no schema + allow list. RemoteSync returns a time
+   slice of the source's length, Client.Sync refuses it ("wrong clock len"):
+   a drift can never be repaired. In-order witness with shallow clocks (every
+   shallow push is rejected, C10 shallow_accept_refuted) *)
+Definition nsp_sh : pcfg :=
+  {| p_codec := {| sync_schema := false; shallow := true; tracked := [0;2]%nat |};
+     p_mut := false; p_hello_m := true; p_sync_m := true |}.
 
-(* (R2) in-order delivery, plain configuration: a push whose diff has no
-   indexes (queue tick moved, no tracked tick did) is not sent, yet
-   lastPushData advances: every later push is rejected *)
-Definition r2_a := sn [1;0;0;0] 2 0.
-Definition r2_b := sn [1;0;0;0] 3 0.
-Definition r2_c := sn [1;1;0;0] 4 0.
-
-Theorem inorder_converges_refuted_lemma :
-  exists (p : pcfg) (s0 a b c : snap),
-    p_mut p = false /\ shallow (p_codec p) = false /\
-    cfg_wf (p_codec p) (length (s_time s0)) = true /\
-    chain_in_range s0 [a; b; c] = true /\ s_m s0 = 0 /\
-    let st := exec p (init p s0)
-                [Src a; Push; Settle; Src b; Push; Settle; Src c; Push; Settle] in
-    quiescent st = true /\ st_err st = false /\ cl_stuck (st_cl st) = false /\
-    st_silent st = true /\ st_rejpush st = true /\
-    mirror_ok (p_codec p) (s_time c) (cl_t (st_cl st)) = false /\
-    forall n, exec p st (concat (repeat [Push; Settle] n)) = st.
-Proof.
-  exists plain, r1_s0, r2_a, r2_b, r2_c.
-  repeat split; try (vm_compute; reflexivity).
-  intros n. apply repeat_fix. vm_compute. reflexivity.
-Qed.
-
-(* (R3) a source with history: the placeholder dataLatest of NewServer is
-   pushed by the first idle ticker run and replaces lastPushData *)
-Definition r3_s0 := sn [1;0;0;0] 2 0.
-Definition r3_a := sn [1;1;0;0] 3 0.
-
-Theorem initial_data_push_refuted_lemma :
+Theorem sync_refused_refuted_lemma :
   exists (p : pcfg) (s0 a : snap),
-    p_mut p = false /\ shallow (p_codec p) = false /\
+    p_mut p = false /\ sync_schema (p_codec p) = false /\
     cfg_wf (p_codec p) (length (s_time s0)) = true /\
     chain_in_range s0 [a] = true /\ s_m s0 = 0 /\
-    let st := exec p (init p s0) [Push; Settle; Src a; Push; Settle] in
+    let st := exec p (init p s0) [Src a; Push; Settle] in
+    quiescent st = true /\ st_err st = false /\ cl_stuck (st_cl st) = false /\
+    st_rejpush st = true /\ st_synced st = true /\ cl_errs (st_cl st) = 1%nat /\
+    mirror_ok (p_codec p) (s_time a) (cl_t (st_cl st)) = false /\
+    forall n, exec p st (concat (repeat [Push; Settle] n)) = st.
+Proof.
+  exists nsp_sh, r1_s0, r1_s1.
+  repeat split; try (vm_compute; reflexivity).
+  intros n. apply repeat_fix. vm_compute. reflexivity.
+Qed.
+
+(* (R2) the same with deep clocks: the drift comes from a reply overtaken by
+   a push *)
+Definition nsp_deep : pcfg :=
+  {| p_codec := {| sync_schema := false; shallow := false; tracked := [0;2]%nat |};
+     p_mut := false; p_hello_m := true; p_sync_m := true |}.
+Definition r2_y2 := sn [1;0;1;0] 3 0.
+
+Theorem reorder_sync_refused_refuted_lemma :
+  exists (p : pcfg) (s0 y1 y2 : snap),
+    p_mut p = false /\ shallow (p_codec p) = false /\ sync_schema (p_codec p) = false /\
+    cfg_wf (p_codec p) (length (s_time s0)) = true /\
+    chain_in_range s0 [y1; y2] = true /\ s_m s0 = 0 /\
+    let st := exec p (init p s0) (race_events y1 y2) in
     quiescent st = true /\ st_err st = false /\
-    st_initpush st = true /\ st_rejpush st = true /\
-    mirror_ok (p_codec p) (s_time a) (cl_t (st_cl st)) = false /\
+    st_rejpush st = true /\ cl_errs (st_cl st) = 1%nat /\
+    sv_last (st_sv st) = mk_data (p_codec p) y2 /\
+    client_view st = (mirror (p_codec p) y1, s_q y1, s_m y1) /\
+    mirror_ok (p_codec p) (s_time y2) (cl_t (st_cl st)) = false /\
     forall n, exec p st (concat (repeat [Push; Settle] n)) = st.
 Proof.
-  exists plain, r3_s0, r3_a.
+  exists nsp_deep, r1_s0, r1_s1, r2_y2.
   repeat split; try (vm_compute; reflexivity).
   intros n. apply repeat_fix. vm_compute. reflexivity.
 Qed.
 
-(* (R4) per-mutation sync: a rejected mutations push calls Sync() from the
-   blocking read loop: the client is stuck, in-order delivery *)
-Definition mutp : pcfg := {| p_codec := all4; p_mut := true; p_hello_m := false; p_sync_m := false |}.
+(* (R3) RemoteSync does not memorise what it sent: after a Sync() the next
+   push is computed against the older lastPushData and is rejected although
+   the client was exactly current - a second full Sync repairs it *)
+Definition all_fixed : pcfg := {| p_codec := all4; p_mut := false; p_hello_m := true; p_sync_m := true |}.
+Definition r3_a := sn [1;0;0;0] 2 0.
+Definition r3_b := sn [1;1;0;0] 3 0.
 
-Theorem mutations_push_blocks_refuted_lemma :
-  exists (p : pcfg) (s0 a : snap),
-    p_mut p = true /\ shallow (p_codec p) = false /\
-    cfg_wf (p_codec p) (length (s_time s0)) = true /\
-    chain_in_range s0 [a] = true /\ s_m s0 = 0 /\
-    let st := exec p (init p s0) [Push; Settle; Src a; Push; Settle] in
-    st_err st = false /\ cl_stuck (st_cl st) = true /\
-    mirror_ok (p_codec p) (s_time a) (cl_t (st_cl st)) = false /\
-    forall es, st_cl (exec p st es) = st_cl st.
-Proof.
-  exists mutp, r3_s0, r3_a.
-  repeat split; try (vm_compute; reflexivity).
-  intros es. apply stuck_forever_lemma. vm_compute. reflexivity.
-Qed.
-
-(* (R5) per-mutation sync: dataQueue is never flushed; from the third export
-   on the chain restarts below lastPushData, the negative deltas wrap to
-   2^32 / 2^16 and the mod-256 checksum accepts them *)
-Definition r5_a := sn [1;0;0;0] 2 0.
-Definition r5_b := sn [1;1;0;0] 3 0.
-Definition r5_c := sn [1;1;1;0] 4 0.
-
-Theorem mutation_queue_refuted_lemma :
-  exists (p : pcfg) (s0 a b c : snap),
-    p_mut p = true /\ shallow (p_codec p) = false /\
-    cfg_wf (p_codec p) (length (s_time s0)) = true /\
-    chain_in_range s0 [a; b; c] = true /\ s_m s0 = 0 /\
-    let st := exec p (init p s0)
-                [Src a; Push; Settle; Src b; Push; Settle; Src c; Push; Settle] in
-    quiescent st = true /\ st_err st = false /\ cl_stuck (st_cl st) = false /\
-    st_rejpush st = false /\
-    activity_ok (p_codec p) (s_time c) (cl_t (st_cl st)) = true /\
-    ticks_ok (p_codec p) (s_time c) (cl_t (st_cl st)) = false /\
-    cl_t (st_cl st) = [1; 1 + 4294967296; 1; 0] /\ cl_q (st_cl st) = 4 + 65536.
-Proof.
-  exists mutp, r1_s0, r5_a, r5_b, r5_c.
-  repeat split; vm_compute; reflexivity.
-Qed.
-
-(* (R6) a full Sync with a partial tracked set: RemoteSync returns the
-   unfiltered time, the client's checksum then covers untracked states and
-   every later push is rejected *)
-Definition part4 : cfg := {| sync_schema := true; shallow := false; tracked := [0;1]%nat |}.
-Definition partp : pcfg := {| p_codec := part4; p_mut := false; p_hello_m := false; p_sync_m := false |}.
-Definition r6_a := sn [1;0;1;0] 3 0.
-Definition r6_b := sn [1;1;1;0] 4 0.
-
-Theorem full_sync_partial_refuted_lemma :
+Theorem sync_not_memorised_refuted_lemma :
   exists (p : pcfg) (s0 a b : snap),
     p_mut p = false /\ shallow (p_codec p) = false /\
     cfg_wf (p_codec p) (length (s_time s0)) = true /\
     chain_in_range s0 [a; b] = true /\ s_m s0 = 0 /\
     let st1 := exec p (init p s0) [Src a; SyncReq; Settle] in
     let st := exec p st1 [Src b; Push; Settle] in
-    mirror_ok (p_codec p) (s_time a) (cl_t (st_cl st1)) = true /\
-    cl_t (st_cl st1) <> mirror (p_codec p) a /\
-    quiescent st = true /\ st_err st = false /\ st_rejpush st = true /\
-    mirror_ok (p_codec p) (s_time b) (cl_t (st_cl st)) = false /\
-    forall n, exec p st (concat (repeat [Push; Settle] n)) = st.
+    client_view st1 = (mirror (p_codec p) a, s_q a, s_m a) /\
+    st_rejpush st1 = false /\ st_rejpush st = true /\
+    client_view st = (mirror (p_codec p) b, s_q b, s_m b) /\ quiescent st = true.
 Proof.
-  exists partp, r1_s0, r6_a, r6_b.
-  repeat split; try (vm_compute; reflexivity).
-  - vm_compute. discriminate.
-  - intros n. apply repeat_fix. vm_compute. reflexivity.
+  exists all_fixed, r1_s0, r3_a, r3_b.
+  repeat split; vm_compute; reflexivity.
 Qed.
 
-(* (R7) a source whose MachineTick is not 0 (it was imported): RemoteHello
-   memorises the tick, the client's HandshakeDone starts from 0: every diff
-   carries MachTick 0 and fails the checksum, from the first push on *)
-Definition r7_s0 := sn [0;0;0;0] 1 1.
-Definition r7_a := sn [1;0;0;0] 2 1.
+(* (R4) RemoteSync returns the unfiltered time: with an allow list (and a
+   schema) the synced mirror carries untracked ticks, the client's checksum
+   covers them, and EVERY later push is rejected and answered by another full
+   Sync; the synchronised states are right each time *)
+Definition part4 : cfg := {| sync_schema := true; shallow := false; tracked := [0;1]%nat |}.
+Definition partp : pcfg := {| p_codec := part4; p_mut := false; p_hello_m := true; p_sync_m := true |}.
+Definition r6_a := sn [1;0;1;0] 3 0.
+Definition r6_b := sn [1;1;1;0] 4 0.
+Definition r6_c := sn [2;1;1;0] 5 0.
 
-Theorem hello_machtick_refuted_lemma :
-  exists (p : pcfg) (s0 a : snap),
-    p_mut p = false /\ shallow (p_codec p) = false /\ p_hello_m p = false /\
+Theorem full_sync_partial_refuted_lemma :
+  exists (p : pcfg) (s0 a b c : snap),
+    p_mut p = false /\ shallow (p_codec p) = false /\
     cfg_wf (p_codec p) (length (s_time s0)) = true /\
-    chain_in_range s0 [a] = true /\ s_m s0 = 1 /\
-    let st := exec p (init p s0) [Src a; Push; Settle] in
-    quiescent st = true /\ st_err st = false /\ st_rejpush st = true /\
-    mirror_ok (p_codec p) (s_time a) (cl_t (st_cl st)) = false /\
-    forall n, exec p st (concat (repeat [Push; Settle] n)) = st.
+    chain_in_range s0 [a; b; c] = true /\ s_m s0 = 0 /\
+    let st1 := exec p (init p s0) [Src a; SyncReq; Settle] in
+    let st2 := exec p st1 [Src b; Push; Settle] in
+    let st3 := exec p (set_flags st2 false false false 0%nat) [Src c; Push; Settle] in
+    cl_t (st_cl st1) <> mirror (p_codec p) a /\
+    st_rejpush st2 = true /\ mirror_ok (p_codec p) (s_time b) (cl_t (st_cl st2)) = true /\
+    cl_t (st_cl st2) <> mirror (p_codec p) b /\
+    st_rejpush st3 = true /\ st_synced st3 = true /\
+    mirror_ok (p_codec p) (s_time c) (cl_t (st_cl st3)) = true.
 Proof.
-  exists plain, r7_s0, r7_a.
-  repeat split; try (vm_compute; reflexivity).
-  intros n. apply repeat_fix. vm_compute. reflexivity.
+  exists partp, r1_s0, r6_a, r6_b, r6_c.
+  repeat split; try (vm_compute; reflexivity); vm_compute; discriminate.
 Qed.
 
-(* (R8) shallow clocks: every push is rejected (C10 shallow_accept_refuted),
-   the push path ignores it *)
+(* (R5) shallow clocks: every push is rejected (C10) and costs a full Sync *)
 Definition shp : pcfg :=
   {| p_codec := {| sync_schema := true; shallow := true; tracked := [0;1;2;3]%nat |};
-     p_mut := false; p_hello_m := false; p_sync_m := false |}.
+     p_mut := false; p_hello_m := true; p_sync_m := true |}.
 
-Theorem shallow_push_stale_refuted_lemma :
-  exists (p : pcfg) (s0 a : snap),
+Theorem shallow_push_rejected_refuted_lemma :
+  exists (p : pcfg) (s0 a b : snap),
     p_mut p = false /\ shallow (p_codec p) = true /\
     cfg_wf (p_codec p) (length (s_time s0)) = true /\
-    chain_in_range s0 [a] = true /\ s_m s0 = 0 /\
-    let st := exec p (init p s0) [Src a; Push; Settle] in
-    quiescent st = true /\ st_err st = false /\ st_rejpush st = true /\
-    mirror_ok (p_codec p) (s_time a) (cl_t (st_cl st)) = false /\
-    forall n, exec p st (concat (repeat [Push; Settle] n)) = st.
+    chain_in_range s0 [a; b] = true /\ s_m s0 = 0 /\
+    let st1 := exec p (init p s0) [Src a; Push; Settle] in
+    let st2 := exec p (set_flags st1 false false false 0%nat) [Src b; Push; Settle] in
+    st_rejpush st1 = true /\ st_synced st1 = true /\
+    mirror_ok (p_codec p) (s_time a) (cl_t (st_cl st1)) = true /\
+    st_rejpush st2 = true /\ st_synced st2 = true /\
+    mirror_ok (p_codec p) (s_time b) (cl_t (st_cl st2)) = true.
 Proof.
-  exists shp, r1_s0, r1_s1.
-  repeat split; try (vm_compute; reflexivity).
-  intros n. apply repeat_fix. vm_compute. reflexivity.
+  exists shp, r1_s0, r3_a, r3_b.
+  repeat split; vm_compute; reflexivity.
 Qed.
+
+(* (R6) the unrepaired client (HandshakeDone ignores the Hello's MachineTick,
+   RemoteSync sends none): on a source with MachineTick 1 every push is
+   rejected and the full Sync leaves machine tick 0 again *)
+Definition r7_s0 := sn [0;0;0;0] 1 1.
+Definition r7_a := sn [1;0;0;0] 2 1.
+Definition r7_b := sn [1;1;0;0] 3 1.
+
+Theorem hello_machtick_refuted_lemma :
+  exists (p : pcfg) (s0 a b : snap),
+    p_mut p = false /\ shallow (p_codec p) = false /\ p_hello_m p = false /\ p_sync_m p = false /\
+    cfg_wf (p_codec p) (length (s_time s0)) = true /\
+    chain_in_range s0 [a; b] = true /\ s_m s0 = 1 /\
+    let st1 := exec p (init p s0) [Src a; Push; Settle] in
+    let st2 := exec p (set_flags st1 false false false 0%nat) [Src b; Push; Settle] in
+    st_rejpush st1 = true /\ cl_m (st_cl st1) = 0 /\
+    st_rejpush st2 = true /\ cl_m (st_cl st2) = 0 /\
+    mirror_ok (p_codec p) (s_time b) (cl_t (st_cl st2)) = true.
+Proof.
+  exists plain, r7_s0, r7_a, r7_b.
+  repeat split; vm_compute; reflexivity.
+Qed.
+
+(* positive instances of what the repairs changed (the old witnesses) *)
+Definition mutp : pcfg := {| p_codec := all4; p_mut := true; p_hello_m := true; p_sync_m := true |}.
+Definition r5_c := sn [1;1;1;0] 4 0.
+Definition h_s0 := sn [1;0;0;0] 2 0.
+
+(* e5ad5bb: per-mutation sync, three exports in order: exact ticks *)
+Lemma mutation_queue_flushed_example :
+  let st := exec mutp (init mutp r1_s0)
+              [Src r3_a; Push; Settle; Src r3_b; Push; Settle; Src r5_c; Push; Settle] in
+  client_view st = (mirror all4 r5_c, s_q r5_c, s_m r5_c) /\ st_rejpush st = false /\
+  sv_queue (st_sv st) = [] /\ quiescent st = true.
+Proof. vm_compute. repeat split; reflexivity. Qed.
+
+(* 4b9897e + ca3c269: per-mutation sync on a source with history *)
+Lemma mutations_history_example :
+  let st := exec mutp (init mutp h_s0) [Push; Settle; Src r3_b; Push; Settle] in
+  client_view st = (mirror all4 r3_b, s_q r3_b, s_m r3_b) /\ cl_stuck (st_cl st) = false /\
+  st_rejpush st = false.
+Proof. vm_compute. repeat split; reflexivity. Qed.
+
+(* 8ad26fe: a push that only moves the queue tick is delivered *)
+Lemma queue_tick_only_push_example :
+  let b := sn [1;0;0;0] 3 0 in
+  let st := exec all_fixed (init all_fixed r1_s0)
+              [Src r3_a; Push; Settle; Src b; Push; Settle; Src (sn [1;1;0;0] 4 0); Push; Settle] in
+  client_view st = ([1;1;0;0], 4, 0) /\ st_rejpush st = false /\ st_npush st = 3%nat.
+Proof. vm_compute. repeat split; reflexivity. Qed.
 
 (* ================= protocol theorems (for all configurations, snapshots,
    histories): in-order convergence, visibility on return, drift handling,
@@ -442,11 +486,10 @@ Lemma push_round : forall p s x y hello,
   cfg_wf (p_codec p) (length (s_time x)) = true ->
   snaps_in_range x y = true ->
   s_q x <> s_q y ->
-  tracked_changed (p_codec p) x y = true ->
   tracked (p_codec p) <> [] ->
   synced_l p (exec p s [Push; Settle]) y false.
 Proof.
-  intros p s x y hello Hmut Hsh Hsy Hlat Hlen Hwf Hrng Hq Hch Htr.
+  intros p s x y hello Hmut Hsh Hsy Hlat Hlen Hwf Hrng Hq Htr.
   destruct Hsy as [He [Hw [Hpe [Hco [Hst [Hne [Hv Hl]]]]]]].
   destruct s as [sv cl wire pend cur err sil rej syn np conn ip].
   destruct cl as [t q m stuck need errs]. destruct sv as [last latest queue].
@@ -464,10 +507,7 @@ Proof.
   pose proof (roundtrip_explicit _ x y Hsh Hlen Hwf Hrng) as HR.
   remember (mk_upd (deep_prs (p_codec p) x y) (s_q y - s_q x) (s_m y - s_m x)
              (checksum (sum64 (filter_time (s_time y) (tracked (p_codec p)))) (s_q y) (s_m y))) as U eqn:EU.
-  assert (Hidx : u_idx U <> []).
-  { subst U. cbn [u_idx mk_upd]. intros Hn. apply (changed_prs _ x y Hlen Hwf Hch).
-    now apply idx_of_nil. }
-  destruct (u_idx U) as [|i0 ir]; [congruence|]. clear Hidx EU.
+  clear EU.
   cbn.
   erewrite cl_update_acc;
     [|exact HR|apply mirror_nonempty; [now rewrite <- Hlen|exact Htr]].
@@ -552,7 +592,7 @@ Lemma round_step : forall p s x hello r,
   length (s_time x) = length (s_time (round_end r)) ->
   snaps_in_range x (round_end r) = true ->
   match r with
-  | RPush _ y => s_q x <> s_q y /\ tracked_changed (p_codec p) x y = true
+  | RPush _ y => s_q x <> s_q y
   | RReply _ _ => True
   end ->
   synced_l p (exec p s (round_events r)) (round_end r) false.
@@ -562,7 +602,6 @@ Proof.
   - rewrite exec_app, exec_cons.
     pose proof (srcs_steps p mid s x hello Hmut Hsy) as H1.
     destruct (src_step p _ x y hello Hmut H1) as [H2 H3].
-    destruct Hr as [Hq Hch].
     now apply (push_round p _ x y hello).
   - rewrite exec_app, exec_cons.
     pose proof (srcs_steps p mid s x hello Hmut Hsy) as H1.
@@ -659,60 +698,6 @@ Definition srv_at_l (p : pcfg) (s : st) (x : snap) (hello : bool) : Prop :=
   cl_stuck (st_cl s) = false /\ cl_need (st_cl s) = false /\
   sv_last (st_sv s) = last_data (p_codec p) hello x.
 
-(* a detected drift on the push path: the update is rejected, nothing else
-   happens (no Sync is requested), the server believes the client is current *)
-Lemma push_drift_ignored_lemma : forall p s x y hello,
-  p_mut p = false -> shallow (p_codec p) = false ->
-  srv_at_l p s x hello ->
-  sv_latest (st_sv s) = Some (mk_data (p_codec p) y) ->
-  length (s_time x) = length (s_time y) ->
-  cfg_wf (p_codec p) (length (s_time x)) = true ->
-  snaps_in_range x y = true ->
-  s_q x <> s_q y -> tracked_changed (p_codec p) x y = true ->
-  length (cl_t (st_cl s)) = length (mirror (p_codec p) x) ->
-  Forall (fun v => v < w64) (cl_t (st_cl s)) -> cl_q (st_cl s) < w64 -> cl_m (st_cl s) < w32 ->
-  drifted (p_codec p) x (cl_t (st_cl s)) (cl_q (st_cl s)) (cl_m (st_cl s)) = true ->
-  let s' := exec p s [Push; Settle] in
-  st_cl s' = st_cl s /\ st_rejpush s' = true /\
-  sv_last (st_sv s') = mk_data (p_codec p) y /\
-  srv_at_l p s' y false.
-Proof.
-  intros p s x y hello Hmut Hsh Hsa Hlat Hlen Hwf Hrng Hq Hch Hlt Hb1 Hb2 Hb3 Hdr s'.
-  destruct Hsa as [He [Hw [Hpe [Hco [Hst [Hne Hl]]]]]].
-  destruct s as [sv cl wire pend cur err sil rej syn np conn ip].
-  destruct cl as [t q m stuck need errs]. destruct sv as [last latest queue].
-  cbn in He, Hw, Hpe, Hco, Hst, Hne, Hl, Hlat, Hlt, Hb1, Hb2, Hb3, Hdr.
-  subst err wire pend conn stuck need last latest.
-  destruct (checksum_detects_lemma (p_codec p) x y hello t q m Hsh Hlen Hwf Hrng Hlt Hb1 Hb2 Hb3 Hdr)
-    as [u [Hu Hrej]].
-  assert (Hu' : last_data (p_codec p) hello x = (if hello then hello_data (p_codec p) x else mk_data (p_codec p) x))
-    by reflexivity.
-  rewrite <- Hu' in Hu.
-  rewrite (calc_update_explicit _ x y hello Hsh Hlen Hwf Hrng) in Hu.
-  injection Hu as Hu.
-  eassert (E : s' = _).
-  { subst s'.
-  unfold exec. cbn [fold_left]. unfold step at 2. cbn [st_err].
-  unfold do_push.
-  cbn [st_sv st_conn negb sv_latest sv_last].
-  rewrite d_q_last, d_q_mk.
-  replace (s_q x =? s_q y) with false by (symmetry; now apply N.eqb_neq).
-  rewrite andb_false_r, Hmut.
-  destruct (mk_data_some (p_codec p) y) as [ty Hty]. rewrite Hty.
-  rewrite (calc_upd_mk p y _ Hsh).
-  rewrite (calc_update_explicit _ x y hello Hsh Hlen Hwf Hrng).
-  rewrite Hu.
-  assert (Hidx : u_idx u <> []).
-  { subst u. cbn [u_idx mk_upd]. intros Hn. apply (changed_prs _ x y Hlen Hwf Hch).
-    now apply idx_of_nil. }
-  destruct (u_idx u) as [|i0 ir]; [congruence|]. clear Hidx Hu.
-  cbn.
-  erewrite cl_update_rej; [|exact Hrej].
-  cbn. reflexivity. }
-  rewrite E. unfold srv_at_l. cbn. repeat split; try reflexivity.
-  now rewrite orb_true_r.
-Qed.
-
 Lemma settle_eq : forall p f s,
   settle p (S f) s =
   let s2 := do_sync_serve p s in
@@ -723,6 +708,88 @@ Lemma settle_eq : forall p f s,
 Proof. reflexivity. Qed.
 
 Local Opaque cl_sync settle.
+
+(* the client side of a rejected push: a Sync is requested (86fb806), served
+   and applied *)
+Lemma rejected_push_settles : forall p sv t q m errs cur sil rej syn np ip u f,
+  cl_update p ({| cl_t := t; cl_q := q; cl_m := m; cl_stuck := false; cl_need := false; cl_errs := errs |}) u = Some ({| cl_t := t; cl_q := q; cl_m := m; cl_stuck := false; cl_need := false; cl_errs := errs |}, false) ->
+  s_time cur <> [] -> length (s_time cur) = length t ->
+  settle p (S (S (S f)))
+    {| st_sv := sv; st_cl := {| cl_t := t; cl_q := q; cl_m := m; cl_stuck := false; cl_need := false; cl_errs := errs |}; st_wire := [WPush u];
+       st_pend := None; st_cur := cur; st_err := false; st_silent := sil; st_rejpush := rej;
+       st_synced := syn; st_npush := np; st_conn := true; st_initpush := ip |}
+  = {| st_sv := sv;
+       st_cl := {| cl_t := s_time cur; cl_q := s_q cur; cl_m := if p_sync_m p then s_m cur else 0; cl_stuck := false; cl_need := false; cl_errs := errs |};
+       st_wire := []; st_pend := None; st_cur := cur; st_err := false; st_silent := sil;
+       st_rejpush := true; st_synced := true; st_npush := np; st_conn := true; st_initpush := ip |}.
+Proof.
+  intros p sv t q m errs cur sil rej syn np ip u f Hu Hne Hl.
+  rewrite settle_eq. cbn -[cl_sync settle cl_update].
+  rewrite Hu. cbn -[cl_sync settle cl_update].
+  rewrite settle_eq. cbn -[cl_sync settle cl_update].
+  rewrite cl_sync_ok by (cbn; assumption).
+  rewrite settle_eq. cbn -[cl_sync settle cl_update].
+  reflexivity.
+Qed.
+
+(* a detected drift on the push path is repaired as well (86fb806): the diff is
+   rejected, the client requests a full Sync and ends up with the source's
+   time; the server believes snapshot y *)
+Lemma push_drift_resyncs_lemma : forall p s x y hello,
+  p_mut p = false -> shallow (p_codec p) = false ->
+  srv_at_l p s x hello ->
+  sv_latest (st_sv s) = Some (mk_data (p_codec p) y) -> st_cur s = y ->
+  length (s_time x) = length (s_time y) ->
+  cfg_wf (p_codec p) (length (s_time x)) = true ->
+  snaps_in_range x y = true ->
+  s_q x <> s_q y ->
+  length (cl_t (st_cl s)) = length (mirror (p_codec p) x) ->
+  Forall (fun v => v < w64) (cl_t (st_cl s)) -> cl_q (st_cl s) < w64 -> cl_m (st_cl s) < w32 ->
+  drifted (p_codec p) x (cl_t (st_cl s)) (cl_q (st_cl s)) (cl_m (st_cl s)) = true ->
+  s_time y <> [] -> length (s_time y) = length (cl_t (st_cl s)) ->
+  let s' := exec p s [Push; Settle] in
+  client_view s' = (s_time y, s_q y, if p_sync_m p then s_m y else 0) /\
+  st_rejpush s' = true /\ st_synced s' = true /\ quiescent s' = true /\ st_err s' = false /\
+  sv_last (st_sv s') = mk_data (p_codec p) y.
+Proof.
+  intros p s x y hello Hmut Hsh Hsa Hlat Hcur Hlen Hwf Hrng Hq Hlt Hb1 Hb2 Hb3 Hdr Hne0 Hly s'.
+  destruct Hsa as [He [Hw [Hpe [Hco [Hst [Hne Hl]]]]]].
+  destruct s as [sv cl wire pend cur err sil rej syn np conn ip].
+  destruct cl as [t q m stuck need errs]. destruct sv as [last latest queue].
+  cbn in He, Hw, Hpe, Hco, Hst, Hne, Hl, Hlat, Hlt, Hb1, Hb2, Hb3, Hdr, Hcur, Hly.
+  subst err wire pend conn stuck need last latest cur.
+  destruct (checksum_detects_lemma (p_codec p) x y hello t q m Hsh Hlen Hwf Hrng Hlt Hb1 Hb2 Hb3 Hdr)
+    as [u [Hu Hrej]].
+  assert (Hu' : last_data (p_codec p) hello x = (if hello then hello_data (p_codec p) x else mk_data (p_codec p) x))
+    by reflexivity.
+  rewrite <- Hu' in Hu.
+  assert (Hcu : cl_update p {| cl_t := t; cl_q := q; cl_m := m; cl_stuck := false; cl_need := false; cl_errs := errs |} u
+                = Some ({| cl_t := t; cl_q := q; cl_m := m; cl_stuck := false; cl_need := false; cl_errs := errs |}, false))
+    by (apply cl_update_rej; exact Hrej).
+  eassert (E : s' = _).
+  { subst s'.
+    match goal with |- context [exec p ?S _] => set (S0 := S) end.
+    assert (E1 : step p S0 Push
+               = set_wire (set_sv (set_flags S0 sil rej syn (S np))
+                                  (mk_server (mk_data (p_codec p) y)
+                                     (Some (mk_data (p_codec p) y)) queue))
+                          [WPush u]).
+    { unfold step, do_push. subst S0.
+      cbn [st_err st_conn negb st_sv sv_latest sv_last sv_queue st_wire app
+           st_silent st_rejpush st_synced st_npush].
+      destruct (mk_data_some (p_codec p) y) as [ty Hty]. rewrite Hty.
+      rewrite d_q_last, d_q_mk.
+      replace (s_q x =? s_q y) with false by (symmetry; now apply N.eqb_neq).
+      rewrite andb_false_r, Hmut.
+      rewrite (calc_upd_mk p y _ Hsh). now rewrite Hu. }
+    rewrite !exec_cons, !exec_nil, E1. subst S0.
+    unfold step. cbn -[cl_sync settle cl_update].
+    unfold set_wire, set_sv, set_flags.
+    cbn [st_sv st_cl st_wire st_pend st_cur st_err st_silent st_rejpush st_synced st_npush st_conn st_initpush].
+    rewrite (rejected_push_settles p _ t q m errs y sil rej syn (S np) ip u _ Hcu Hne0 Hly).
+    reflexivity. }
+  rewrite E. unfold client_view, quiescent. cbn. repeat split; reflexivity.
+Qed.
 
 (* the client side of a rejected reply: Sync requested, served, applied *)
 Lemma rejected_reply_settles : forall p sv t q m errs cur sil rej syn np ip u f,
@@ -831,7 +898,7 @@ Proof.
   cbn in He, Hw, Hn, Hla, Hl. subst err wire need latest last.
   unfold exec, step, do_push. cbn [fold_left st_err st_conn st_sv sv_latest sv_last].
   rewrite !N.eqb_refl. cbn [andb].
-  destruct (negb conn); cbn; unfold do_sync_serve; cbn; reflexivity.
+  destruct (negb conn); destruct (d_mtime d); cbn; unfold do_sync_serve; cbn; reflexivity.
 Qed.
 
 Local Opaque client_apply calc_update calc_update_muts w8 w16 w32 w64 hello_time mk_data mirror checksum.
@@ -858,18 +925,17 @@ Section Steps.
 
   Lemma st_push : forall l qu cl wire pend cur sil rej syn np y u,
     d_q l <> s_q y ->
-    calc_update c false (mk_data c y) l = Some u -> u_idx u <> [] ->
+    calc_update c false (mk_data c y) l = Some u ->
     step p (mkst (mk_server l (Some (mk_data c y)) qu) cl wire pend cur sil rej syn np) Push
     = mkst (mk_server (mk_data c y) (Some (mk_data c y)) qu) cl (wire ++ [WPush u]) pend cur
            sil rej syn (S np).
   Proof.
-    intros l qu cl wire pend cur sil rej syn np y u Hq Hu Hi.
+    intros l qu cl wire pend cur sil rej syn np y u Hq Hu.
     unfold step, do_push, mkst. cbn [st_err st_conn negb st_sv sv_latest sv_last mk_server].
+    destruct (mk_data_some c y) as [ty Hty]. fold c. rewrite Hty.
     rewrite d_q_mk. replace (d_q l =? s_q y) with false by (symmetry; now apply N.eqb_neq).
     rewrite andb_false_r, Hmut.
-    destruct (mk_data_some c y) as [ty Hty]. fold c. rewrite Hty.
-    rewrite (calc_upd_mk p y _ Hsh). fold c. rewrite Hu.
-    destruct (u_idx u) as [|i0 ir]; [congruence|]. reflexivity.
+    rewrite (calc_upd_mk p y _ Hsh). fold c. rewrite Hu. reflexivity.
   Qed.
 
   Lemma st_write : forall sv cl wire r cur sil rej syn np,
@@ -877,89 +943,116 @@ Section Steps.
     = mkst sv cl (wire ++ [WReply r]) None cur sil rej syn np.
   Proof. reflexivity. Qed.
 
-  Lemma st_deliver_push_rej : forall sv t q m errs w pend cur sil rej syn np u,
+  Local Opaque cl_sync settle.
+
+  (* a push is delivered and rejected while a mutation call is in flight: the
+     Sync it requests waits for the client's callLock *)
+  Lemma st_settle_parked_push_rej : forall sv t q m errs r cur sil rej syn np u,
     rejected (client_apply c u t q m) = true ->
-    step p (mkst sv (mk_client t q m false false errs) (WPush u :: w) pend cur sil rej syn np) Deliver
-    = mkst sv (mk_client t q m false false errs) w pend cur sil true syn np.
+    step p (mkst sv (mk_client t q m false false errs) [WPush u] (Some r) cur sil rej syn np) Settle
+    = mkst sv (mk_client t q m false true errs) [] (Some r) cur sil true syn np.
   Proof.
-    intros. unfold step, do_deliver, mkst. cbn [st_err st_cl cl_stuck mk_client st_wire].
-    erewrite cl_update_rej; [|exact H]. cbn. now rewrite orb_true_r.
+    intros sv t q m errs r cur sil rej syn np u H.
+    assert (Hcu : cl_update p (mk_client t q m false false errs) u
+                  = Some (mk_client t q m false false errs, false))
+      by (apply cl_update_rej; exact H).
+    unfold step, mkst. cbn [st_err st_wire length Nat.mul Nat.add].
+    rewrite settle_eq. unfold mk_client in *. cbn -[cl_sync settle cl_update].
+    rewrite Hcu. cbn -[cl_sync settle cl_update].
+    rewrite settle_eq. cbn -[cl_sync settle cl_update].
+    reflexivity.
   Qed.
 
-  Lemma st_deliver_reply_acc : forall sv t q m errs w pend cur sil rej syn np u t' q' m',
+  (* the reply is processed (accepted), the call returns, then the pending Sync
+     is served and applied *)
+  Lemma st_settle_reply_then_sync : forall sv t q m errs cur sil rej syn np u t' q' m',
     client_apply c u t q m = Some (t', q', m', true) -> t' <> [] ->
-    step p (mkst sv (mk_client t q m false false errs) (WReply (RUpd u) :: w) pend cur sil rej syn np) Deliver
-    = mkst sv (mk_client t' q' m' false false errs) w pend cur sil rej syn np.
+    s_time cur <> [] -> length (s_time cur) = length t' ->
+    step p (mkst sv (mk_client t q m false true errs) [WReply (RUpd u)] None cur sil rej syn np) Settle
+    = mkst sv (mk_client (s_time cur) (s_q cur) (if p_sync_m p then s_m cur else 0) false false errs)
+           [] None cur sil rej true np.
   Proof.
-    intros. unfold step, do_deliver, mkst. cbn [st_err st_cl cl_stuck mk_client st_wire].
-    erewrite cl_update_acc; [|exact H|exact H0]. reflexivity.
+    intros sv t q m errs cur sil rej syn np u t' q' m' Ha Hn Hc Hl.
+    assert (Hcu : cl_update p (mk_client t q m false true errs) u
+                  = Some (mk_client t' q' m' false true errs, true))
+      by (apply (cl_update_acc p (mk_client t q m false true errs) u t' q' m' Ha Hn)).
+    unfold step, mkst. cbn [st_err st_wire length Nat.mul Nat.add].
+    rewrite settle_eq. unfold mk_client in *. cbn -[cl_sync settle cl_update].
+    rewrite Hcu. cbn -[cl_sync settle cl_update].
+    rewrite settle_eq. cbn -[cl_sync settle cl_update].
+    rewrite cl_sync_ok by (cbn; assumption).
+    rewrite settle_eq. cbn -[cl_sync settle cl_update].
+    reflexivity.
   Qed.
+
+  Local Transparent cl_sync settle.
 End Steps.
 
-(* (5) a reply overtaken by a push, for all snapshots: the push is rejected
-   and dropped, the reply is accepted, the server believes the client holds
-   the later snapshot, and nothing ever repairs it *)
-Theorem reorder_stale_lemma : forall p x y1 y2 hello l0 la qu errs sil rej syn np,
+(* (5) a reply overtaken by a push, for all snapshots: the push is rejected,
+   the Sync it requests waits behind the mutation call, the reply is accepted,
+   then the Sync brings the client to the source's current time. Needs the
+   Sync response to be acceptable (same length: a schema, or all states
+   tracked) - otherwise see reorder_sync_refused_refuted *)
+Theorem reorder_converges_lemma : forall p x y1 y2 hello l0 la qu errs sil rej syn np,
   p_mut p = false -> shallow (p_codec p) = false ->
   l0 = last_data (p_codec p) hello x ->
   length (s_time x) = length (s_time y1) -> length (s_time y1) = length (s_time y2) ->
   cfg_wf (p_codec p) (length (s_time x)) = true -> tracked (p_codec p) <> [] ->
   snaps_in_range x y1 = true -> snaps_in_range y1 y2 = true ->
-  s_q y1 <> s_q y2 -> tracked_changed (p_codec p) y1 y2 = true ->
+  s_q y1 <> s_q y2 ->
   Forall (fun v => v < w64) (mirror (p_codec p) x) -> s_q x < w64 -> s_m x < w32 ->
-  (* the checksums of x and y1 differ (mod 256) *)
+  (* the checksums of x and y1 differ (mod 256): the overtaking push is rejected *)
   drifted (p_codec p) y1 (mirror (p_codec p) x) (s_q x) (s_m x) = true ->
+  s_time y2 <> [] -> length (s_time y2) = length (mirror (p_codec p) y1) ->
   let s := mkst (mk_server l0 la qu) (mk_client (mirror (p_codec p) x) (s_q x) (s_m x) false false errs)
                 [] None x sil rej syn np in
-  let st := exec p s [Src y1; Reply; Src y2; Push; Deliver; Write; Deliver] in
-  client_view st = (mirror (p_codec p) y1, s_q y1, s_m y1) /\
-  sv_last (st_sv st) = mk_data (p_codec p) y2 /\ st_rejpush st = true /\
+  let s1 := exec p s [Src y1; Reply; Src y2; Push; Settle] in
+  let st := exec p s1 [Write; Settle] in
+  (* while the reply is parked the mirror is untouched *)
+  client_view s1 = (mirror (p_codec p) x, s_q x, s_m x) /\ st_rejpush s1 = true /\
+  client_view st = (s_time y2, s_q y2, if p_sync_m p then s_m y2 else 0) /\
+  sv_last (st_sv st) = mk_data (p_codec p) y2 /\ st_synced st = true /\
   quiescent st = true /\ st_err st = false /\ cl_stuck (st_cl st) = false /\
-  mirror_ok (p_codec p) (s_time y2) (cl_t (st_cl st)) = false /\
-  forall n, exec p st (concat (repeat [Push; Settle] n)) = st.
+  (sync_schema (p_codec p) = true ->
+   mirror_ok (p_codec p) (s_time y2) (cl_t (st_cl st)) = true).
 Proof.
   intros p x y1 y2 hello l0 la qu errs sil rej syn np Hmut Hsh Hl0 Hlen1 Hlen2 Hwf Htr Hr1 Hr2
-         Hq Hch Hb1 Hb2 Hb3 Hdr s st.
+         Hq Hb1 Hb2 Hb3 Hdr Hne2 Hl2 s s1 st.
   set (c := p_codec p) in *.
   assert (Hwf1 : cfg_wf c (length (s_time y1)) = true) by now rewrite <- Hlen1.
-  (* the reply x -> y1 *)
   pose proof (calc_update_explicit c x y1 hello Hsh Hlen1 Hwf Hr1) as HU1.
   pose proof (roundtrip_explicit c x y1 Hsh Hlen1 Hwf Hr1) as HR1.
   remember (mk_upd (deep_prs c x y1) (s_q y1 - s_q x) (s_m y1 - s_m x)
              (checksum (sum64 (filter_time (s_time y1) (tracked c))) (s_q y1) (s_m y1))) as U1 eqn:E1.
   clear E1. rewrite <- Hl0 in HU1.
-  (* the push y1 -> y2 *)
-  pose proof (calc_update_explicit c y1 y2 false Hsh Hlen2 Hwf1 Hr2) as HU2.
-  rewrite last_data_false in HU2.
   assert (Hlm : length (mirror c x) = length (mirror c y1)).
   { rewrite (mirror_length c _ x eq_refl), (mirror_length c _ y1 eq_refl). now rewrite Hlen1. }
   destruct (checksum_detects_lemma c y1 y2 false (mirror c x) (s_q x) (s_m x)
               Hsh Hlen2 Hwf1 Hr2 Hlm Hb1 Hb2 Hb3 Hdr) as [u2 [Hu2 Hrej2]].
   cbv zeta in Hu2. change (if false then hello_data c y1 else mk_data c y1) with (mk_data c y1) in Hu2.
-  assert (Hidx : u_idx u2 <> []).
-  { rewrite HU2 in Hu2. injection Hu2 as Hu2. subst u2. cbn [u_idx mk_upd]. intros Hn.
-    apply (changed_prs c y1 y2 Hlen2 Hwf1 Hch). now apply idx_of_nil. }
-  clear HU2.
   assert (Hnn : mirror c y1 <> []) by (apply mirror_nonempty; assumption).
-  assert (E : st = mkst (mk_server (mk_data c y2) (Some (mk_data c y2)) qu)
-                        (mk_client (mirror c y1) (s_q y1) (s_m y1) false false errs)
-                        [] None y2 sil true syn (S np)).
-  { subst st s. rewrite !exec_cons, exec_nil.
+  assert (Es1 : s1 = mkst (mk_server (mk_data c y2) (Some (mk_data c y2)) qu)
+                          (mk_client (mirror c x) (s_q x) (s_m x) false true errs)
+                          [] (Some (RUpd U1)) y2 sil true syn (S np)).
+  { subst s1 s. rewrite !exec_cons, exec_nil.
     rewrite (st_src p Hmut). fold c.
     rewrite (st_reply p Hmut Hsh _ _ _ _ _ _ _ _ _ _ _ U1 HU1). fold c.
     rewrite (st_src p Hmut). fold c.
     rewrite (st_push p Hmut Hsh _ _ _ _ _ _ _ _ _ _ _ u2); fold c;
-      [|rewrite d_q_mk; exact Hq|exact Hu2|exact Hidx].
+      [|rewrite d_q_mk; exact Hq|exact Hu2].
     cbn [app].
-    rewrite (st_deliver_push_rej p _ _ _ _ _ _ _ _ _ _ _ _ u2 Hrej2).
-    rewrite st_write. cbn [app].
-    rewrite (st_deliver_reply_acc p _ _ _ _ _ _ _ _ _ _ _ _ U1 _ _ _ HR1 Hnn).
+    rewrite (st_settle_parked_push_rej p _ _ _ _ _ _ _ _ _ _ _ u2 Hrej2).
     reflexivity. }
-  rewrite E. unfold client_view, quiescent, mkst. cbn.
+  assert (Est : st = mkst (mk_server (mk_data c y2) (Some (mk_data c y2)) qu)
+                          (mk_client (s_time y2) (s_q y2) (if p_sync_m p then s_m y2 else 0) false false errs)
+                          [] None y2 sil true true (S np)).
+  { subst st. rewrite Es1. rewrite !exec_cons, exec_nil.
+    rewrite st_write. cbn [app].
+    rewrite (st_settle_reply_then_sync p _ _ _ _ _ _ _ _ _ _ U1 _ _ _ HR1 Hnn Hne2 Hl2).
+    reflexivity. }
+  rewrite Es1, Est. unfold client_view, quiescent, mkst. cbn.
   repeat split; try reflexivity.
-  - unfold mirror_ok. fold c. rewrite Hsh. now apply changed_not_ticks_ok.
-  - intros n. apply repeat_fix.
-    apply (push_noop p _ (mk_data c y2)); reflexivity.
+  intros Hss. now apply full_sync_mirror_ok.
 Qed.
 
 (* the client-issued round as a whole, from any synced state *)
@@ -982,4 +1075,32 @@ Proof.
   destruct (reply_round p _ x y hello Hmut Hsh H2 H3 Hlen Hwf Hrng Htr) as [H4 H5].
   split; [exact H4|]. split; [|exact H5].
   apply (synced_mirror_ok p _ y false Hsh); [now rewrite <- Hlen|exact H4].
+Qed.
+
+(* ca3c269: before the first transition after the handshake pushClient exports
+   nothing, however often it runs - whatever history the source has *)
+Theorem placeholder_not_pushed_lemma : forall p x n,
+  exec p (init p x) (concat (repeat [Push; Settle] n)) = init p x.
+Proof.
+  intros p x n. apply repeat_fix.
+  unfold exec, step, init, do_push. cbn [fold_left st_err st_conn negb st_sv sv_latest mk_server].
+  cbn [init_data d_mtime]. cbn. unfold do_sync_serve. cbn. reflexivity.
+Qed.
+
+(* what still fails in per-mutation sync: RemoteHello re-memorises
+   lastPushData but keeps the tracer's dataQueue; after a reconnect the next
+   chain starts below lastPushData, wraps, and is accepted *)
+Theorem hello_keeps_queue_refuted_lemma :
+  exists (p : pcfg) (s0 a b c : snap),
+    p_mut p = true /\ shallow (p_codec p) = false /\
+    cfg_wf (p_codec p) (length (s_time s0)) = true /\
+    chain_in_range s0 [a; b; c] = true /\ s_m s0 = 0 /\
+    let st := exec p (init p s0) [Src a; Src b; Hello; Src c; Push; Settle] in
+    quiescent st = true /\ st_err st = false /\ st_rejpush st = false /\
+    activity_ok (p_codec p) (s_time c) (cl_t (st_cl st)) = true /\
+    ticks_ok (p_codec p) (s_time c) (cl_t (st_cl st)) = false /\
+    cl_t (st_cl st) = [1; 1 + 4294967296; 1; 0] /\ cl_q (st_cl st) = 4 + 65536.
+Proof.
+  exists mutp, r1_s0, r3_a, r3_b, r5_c.
+  repeat split; vm_compute; reflexivity.
 Qed.
